@@ -39,7 +39,7 @@ def replay_case(case, tag, rng, tier):
         else:
             out["skipped"][skip] = out["skipped"].get(skip, 0) + 1
 
-    la, lb, lc = build(a, pose, num), build(b, pose, num), build(c, pose, num)
+    la, lb, lc = common.build_variant(a, pose, num, rng), common.build_variant(b, pose, num, rng), common.build_variant(c, pose, num, rng)
     i_ab, exc = call(G.intersection, la, lb)
     out["calls"] += 1
     o_ab = exc or observe(i_ab)
